@@ -3,6 +3,7 @@ package main
 import (
 	"fmt"
 	"go/token"
+	"sort"
 	"strings"
 
 	"golang.org/x/tools/go/ssa"
@@ -364,11 +365,73 @@ func c09SeekBoundaries(c *Ctx) {
 		})
 	}
 	if fn := c.mustFn("IndexPos.Seek"); fn != nil {
-		newPos := "phi([1*IndexPos.Length 1*param#1]+0|[1*IndexPos.pos 1*param#1]+0|[1*param#1]+0)"
-		c.boundaryRule("IndexPos.Seek", withClosures(fn), []boundarySpec{
-			{"negative", map[string]int{newPos: 1}, -1, 1, "newPos (offset | pos+offset | Length+offset by whence) is rejected iff < 0"},
-			{"past-end", map[string]int{"IndexPos.Length": 1, newPos: -1}, -1, 1, "EOF iff newPos > Length"},
-		})
+		// newPos is whatever Seek hands to findOffset; it must be offset, pos+offset or Length+offset
+		// (by whence), be rejected iff < 0 and answer EOF iff > Length - however it is put together
+		var newPos ssa.Value
+		for _, call := range calls(fn, suffixed("IndexPos).findOffset")) {
+			a := call.Common().Args
+			newPos = a[len(a)-1]
+		}
+		if newPos == nil {
+			c.bad("IndexPos.Seek:newPos", fn.Pos(), "Seek does not call findOffset")
+		} else {
+			forms := map[string]bool{}
+			for _, f := range altForms(newPos, 0) {
+				forms[f.String()] = true
+			}
+			want := []string{"[1*param#1]+0", "[1*IndexPos.pos 1*param#1]+0", "[1*IndexPos.Length 1*param#1]+0"}
+			okW := true
+			for _, w := range want {
+				if !forms[w] {
+					okW = false
+				}
+			}
+			var got []string
+			for f := range forms {
+				got = append(got, f)
+			}
+			sort.Strings(got)
+			c.verdict(okW, "IndexPos.Seek:whence", fn.Pos(), "newPos = offset | pos+offset | Length+offset", fmt.Sprintf("the new position is not offset, pos+offset or Length+offset by whence (forms %v)", got))
+			lf := linearB(newPos, 0)
+			sameAs := func(atoms map[string]int, want map[string]int) int {
+				if len(atoms) != len(want) {
+					return 0
+				}
+				pos, neg := true, true
+				for a, n := range want {
+					if atoms[a] != n {
+						pos = false
+					}
+					if atoms[a] != -n {
+						neg = false
+					}
+				}
+				switch {
+				case pos:
+					return 1
+				case neg:
+					return -1
+				}
+				return 0
+			}
+			vAtoms := map[string]int{}
+			for a, n := range lf.atoms {
+				if n != 0 {
+					vAtoms[a] = n
+				}
+			}
+			c.boundaryRuleFn("IndexPos.Seek", "negative", withClosures(fn), func(atoms map[string]int) int { return sameAs(atoms, vAtoms) }, -1-lf.k, 1, "newPos is rejected iff < 0")
+			lenMinus := map[string]int{"IndexPos.Length": 1}
+			for a, n := range vAtoms {
+				lenMinus[a] -= n
+			}
+			for a, n := range lenMinus {
+				if n == 0 {
+					delete(lenMinus, a)
+				}
+			}
+			c.boundaryRuleFn("IndexPos.Seek", "past-end", withClosures(fn), func(atoms map[string]int) int { return sameAs(atoms, lenMinus) }, -1+lf.k, 1, "EOF iff newPos > Length")
+		}
 	}
 	c10RangeBoundaries(c)
 }
